@@ -2223,4 +2223,6 @@ class Transaction(object):
         self.fee = fee
         for o in outputs_to_delete:
             self.outputs.remove(o)
+        for idx, o in enumerate(self.outputs):
+            o.output_n = idx
         self.sign_and_update()
